@@ -166,7 +166,8 @@ def read_all(ds_, fmt: str, comp: str, tier: str) -> dict:
 
 
 def numeric_case(args) -> dict:
-    fmt, comp, li, seed = args
+    fmt, comp, li, seed = args[:4]
+    eps = args[4] if len(args) > 4 else 4
     root = core.fresh_dir("c01")
     out = {"args": list(args), "bad": [], "cells": 0, "rejected": 0,
            "unsupported": 0, "harness": None}
@@ -181,14 +182,14 @@ def numeric_case(args) -> dict:
             path=root, metadata=Metadata(),
             dataset_structure=DatasetStructure(
                 saved_data_description=attrs, compression=comp,
-                examples_per_shard=4, shard_file_type=fmt,
+                examples_per_shard=eps, shard_file_type=fmt,
                 hash_checksum_algorithms=("md5",)))
         rng = np.random.default_rng(seed * 7919 + li)
         expected = []  # per accepted example: {name: bytes}
         info = []
         # 9 presentations, 4 examples per shard: after 36 examples every
         # presentation has been the first, ..., last example of a shard
-        E = 4 * len(PRES)
+        E = 4 * len(PRES) if eps == 4 else len(PRES) + (eps - 1)
         with ds_.filler() as f:
             for e in range(E):
                 how = PRES[e % len(PRES)]
@@ -422,6 +423,12 @@ def run(ctx):
             cs = comps if thorough else (comps[li % len(comps)],)
             for c in cs:
                 num.append((fmt, c, li, seed))
+            # shards holding a single example (every presentation alone in a
+            # shard), and a short last shard
+            if fmt == "npz" or thorough or li % 3 == 0:
+                num.append((fmt, comps[(li + 1) % len(comps)], li, seed, 1))
+            if li % 4 == 1:
+                num.append((fmt, comps[(li + 2) % len(comps)], li, seed, 5))
         for c in (comps if thorough else comps[:2]):
             allv.append((fmt, c))
     for c in COMP["tfrec"]:
@@ -460,7 +467,8 @@ def run(ctx):
         "dtype; all 2^8 / 2^16 values of the 8/16-bit dtypes in one array; "
         "9 presentations (C, Fortran, strided, negative stride, big-endian, "
         "narrower dtype, NumPy scalar / list, read-only, buffer mutated "
-        "after the call), each at every position within a shard; readers "
+        "after the call), each at every position within a shard of 4 and "
+        "alone in a shard of 1; readers "
         "sync, concurrent, async, Rust, tf.data; "
         "oracle: bytes of the value read (C order, little endian, declared "
         "dtype; TFRecord integers widened to int64) == bytes written")
